@@ -47,6 +47,25 @@ def reset_library_state():
     xfab.CHECKS._run_checks = True
 
 
+_LATER = []
+_LATER_TICK = 0
+
+
+def _same_value(a, b):
+    import numpy as _np
+    if isinstance(a, (list, tuple)) and isinstance(b, (list, tuple)):
+        return len(a) == len(b) and all(_same_value(x, y) for x, y in zip(a, b))
+    try:
+        return bool(_np.array_equal(_np.asarray(a), _np.asarray(b), equal_nan=True))
+    except Exception:
+        return a == b
+
+
+def _short(x):
+    s = repr(x)
+    return s if len(s) < 200 else s[:200] + "..."
+
+
 class Ctx(object):
     """Everything one shard records about the cases it evaluated."""
 
@@ -86,6 +105,43 @@ class Ctx(object):
             return obj
         self._kept.append((label, obj, snap))
         return obj
+
+    # -- purity across the history of the whole process -----------------------
+    def later(self, label, fn, *args):
+        """Evaluate fn(*args) now and remember (label, fn, private copies of args, snapshot of the result) in a small
+        per-process store; every few cases one remembered call is repeated - after everything else the process has done
+        in between - and must give the same value: results may depend on the arguments only, never on the history."""
+        import copy as _copy
+        res = fn(*args)
+        store = _LATER
+        if len(store) < 64:
+            try:
+                store.append((label, fn, _copy.deepcopy(args), _copy.deepcopy(res)))
+            except Exception:
+                pass
+        return res
+
+    def recheck_later(self):
+        import copy as _copy
+        global _LATER_TICK
+        _LATER_TICK += 1
+        if not _LATER or _LATER_TICK % 5:
+            return
+        i = (_LATER_TICK // 5) % len(_LATER)
+        label, fn, args, snap = _LATER[i]
+        try:
+            again = fn(*_copy.deepcopy(args))
+        except Exception as e:
+            self.fail("history-dependent-result/" + label, "%s%r raised %r when repeated later in the same process (it returned a value the first time)" % (label, tuple(args), e))
+            _LATER.pop(i)
+            return
+        if not _same_value(again, snap):
+            self.fail("history-dependent-result/" + label, "%s%r returns a different value when repeated later in the same process: %r then, %r now" % (
+                label, tuple(args), _short(snap), _short(again)))
+            _LATER.pop(i)
+        elif _LATER_TICK % 40 == 0:
+            _LATER.pop(i)          # rotate the store
+        self.event("repeated-earlier-call")
 
     def verify_kept(self):
         import numpy as _np
@@ -202,6 +258,7 @@ def guarded_check(prop, case, ctx):
     try:
         prop.check(case, ctx)
         ctx.verify_kept()
+        ctx.recheck_later()
     except HarnessError:
         raise
     except Exception as e:  # noqa
